@@ -184,6 +184,8 @@ class _Vec:
             return self._like(out)
         if t in ("float64", "float"):
             return self._like([C.coerce(c, "f") for c in self.cells])
+        if t == "object":
+            return self._like(list(self.cells))  # same values in an object array (cells carry no dtype)
         raise Unmodelled(f"astype({t})")
 
     def combine_first(self, other):
@@ -263,6 +265,26 @@ class _Vec:
         return f"{type(self).__name__}({self.cells}, index={self.index})"
 
 
+class _StrAccessor:
+    """Series.str: only slice(start, stop) with concrete non-negative bounds (Python slicing = z3 SubString with clipping)"""
+
+    def __init__(self, s):
+        self.s = s
+
+    def slice(self, start=None, stop=None, step=None):
+        if step not in (None, 1) or not isinstance(start, int) or not isinstance(stop, int) or isinstance(start, bool) or start < 0 or stop < 0:
+            raise Unmodelled("Series.str.slice form")
+        out = []
+        for c in self.s.cells:
+            if c.kind != "s":
+                raise Unmodelled("Series.str on non-strings")
+            out.append(Cell(c.null, z3.SubString(c.val, z3.IntVal(start), z3.IntVal(max(0, stop - start))), "s", c.dc, c.kf))
+        return self.s._like(out)
+
+    def __getattr__(self, name):
+        raise Unmodelled(f"Series.str.{name}")
+
+
 class Series(_Vec):
     def __init__(self, data=None, index=None, name=None, dtype=None):
         if isinstance(data, _Vec):
@@ -282,7 +304,7 @@ class Series(_Vec):
 
     @property
     def str(self):
-        raise Unmodelled("Series.str")
+        return _StrAccessor(self)
 
     @property
     def dt(self):
@@ -650,12 +672,20 @@ def np_asarray(a, dtype=None):
         cells = a.cells
     elif isinstance(a, (list, tuple)):
         cells = [lit(x) for x in a]
+    elif isinstance(a, str) and dtype is str:
+        return lit(a)  # 0-d string array: broadcasts like a scalar
     else:
         raise Unmodelled("asarray of scalar")
     if dtype is float:
         cells = [C.coerce(c, "f") for c in cells]
     elif dtype is str:
-        raise Unmodelled("asarray(dtype=str)")
+        def tostr(c):
+            if c.kind != "s":
+                raise Unmodelled("asarray(dtype=str) of a non-string column (number formatting)")
+            # numpy turns a missing entry of an object column into the TEXT 'nan' ('None' for None): no longer missing
+            return Cell(FALSE, z3.If(c.null, z3.StringVal("nan"), c.val) if not z3.is_false(c.null) else c.val, "s", c.dc, c.kf)
+
+        cells = [tostr(c) for c in cells]
     return NDArray(cells)
 
 
@@ -682,7 +712,14 @@ def np_fmin(a, b):
 class _Char:
     @staticmethod
     def add(a, b):
-        raise Unmodelled("numpy.char.add")
+        def cat(x, y):
+            if x.kind != "s" or y.kind != "s":
+                raise Unmodelled("numpy.char.add on non-strings")
+            dc, kf = C.taint(x, y)
+            return Cell(zor(x.null, y.null), z3.Concat(x.val, y.val), "s", dc, kf)
+
+        r = _elementwise(cat, a, b)
+        return NDArray(r.cells) if isinstance(r, _Vec) else r
 
 
 class _Random:
